@@ -470,6 +470,10 @@ def dispatchInternal (c : Client) (l : Line) : HR :=
     { c := r2.c, out := r1.out ++ r2.out, panicked := r1.panicked || r2.panicked, connected := r1.connected || r2.connected }
   | _, _ => r1
 
+/-- what `Client(cfg)` does to the configuration it is given: a SASL mechanism needs capability negotiation, so the
+switch is turned on for it ("Enabling capability negotiation as it's required for SASL") -/
+def clientConfig (cfg : Config) : Config := { cfg with capNeg := cfg.capNeg || cfg.sasl.isSome }
+
 /-- `EnableStateTracking` on a client that is not tracking yet -/
 def enableTracking (c : Client) : Client :=
   match c.st with
